@@ -12,7 +12,7 @@ def main(run):
                 'dicts over mixed and mutually incomparable keys (alphabet K); every dumped tree and seeded random trees are flattened by '
                 'the real tree_flatten / tree_leaves / tree_structure / tree_replace_nones and TLC compares leaves and the full node '
                 'array with the reference; non-trivial = tree contains a dict kind with >= 2 keys, a custom/sub/None node or a predicate hit')
-    bounds = [('A', 4, 2, 2), ('B2', 3, 2, 2), ('K', 4, 3, 3)] if quick else [('A', 5, 2, 2), ('B1', 4, 3, 3), ('B2', 4, 2, 2), ('K', 5, 4, 4)]
+    bounds = [('A', 4, 2, 2), ('B2', 3, 2, 2), ('K', 4, 3, 3)] if quick else [('A', 5, 2, 2), ('B1', 4, 3, 3), ('B2', 4, 2, 2), ('K', 4, 3, 3), ('KO', 4, 3, 3)]
     rng = random.Random(run.seed)
     trees, _ = F.model_phase(run, bounds, ['InvC02'])
     trees = F.cap(trees, 5000 if quick else 150000, rng, run)
